@@ -95,7 +95,7 @@ func init() {
 				s.Length = 1 + r.Intn(4)
 			}
 			if r.Chance(0.5) {
-				cc := genCharCfg(r, charOpt{small: true, budget: 40, maxLen: 2, maxReq: 1, noEmptied: true})
+				cc := genCharCfg(r, charOpt{small: true, budget: 40, maxLen: 2, maxReq: 1, noEmptied: r.Chance(0.7)})
 				if modelChar(cc).Count().Sign() > 0 && len(modelChar(cc).Req) == 0 {
 					s.Seps = append(s.Seps, SepCfg{Kind: "recipe", Recipe: &cc})
 				}
